@@ -5,10 +5,33 @@ import os
 
 from harness import core
 from harness.suites import fe_rules
+from harness.suites import fe_compile
 
 
 MANIFEST = dict(
-    text='Two layers. PROVED (Lean 4, Props/C01.lean), full strength, about component models of the decision logic that '
+    text='Three layers. PROVED FOR THE TYPE GRAPH (Lean 4, Props/C01Compile.lean): `compile_ok_iff_legal` - the model of the '
+         'IR generator`s core (Model/FeCompile.lean `compile`: registration, imports, _populate_type_attributes with the '
+         'depth-first population of parents and the alias-cycle search, the type tests of _populate_field_defaults, '
+         '_populate_enumerated_subtypes, the three types and `deprecated by` of routes; tied to stone/frontend/ir_generator.py '
+         'by suite comp.compile, see C02) accepts a set of spec files EXACTLY WHEN `Legal` holds, where `Legal` is a '
+         'decidable conjunction of order-free rules over the declarations of all files, written from docs/lang_ref.rst and '
+         'the rule catalogue: names (FeNames.NoClash), imports (not reflexive, existing, acyclic), references (a built-in '
+         'type with legal arguments or a struct / union / alias without arguments, prefix = imported namespace, Void never '
+         'nullable, nothing nullable that is nullable or Void once aliases are unfolded), aliases (no cycle through List / '
+         'Map / Nullable), structs and unions (parent kinds, closed below open, Void / nullable-with-default / '
+         'default-on-composite members, reserved `other`, no member name twice along the chain of parents - which also '
+         'says the chain ends), enumerated subtypes (root without parent, each subtype known, a struct, a child of the '
+         'root, listed once under a fresh tag, all children listed, leaves not extended), routes (three legal types, '
+         '`deprecated by` an existing route version). Corollaries: `legal_accepted` (a spec that violates none is never '
+         'refused, and none of the model`s recursion bounds is hit), `violation_refused` (any violation, anywhere, in any '
+         'order, is refused), `compile_error_sound` (every error kind is only produced on illegal input), '
+         '`acceptance_by_rules`, `buildEnv_ok_iff`. The only hypothesis is `nsLexical` (namespace names contain no "/": '
+         'the lexer`s ID token). `Legal` itself is tied to the REAL compiler by suite comp.legal: on every input of '
+         'comp.compile inside the modelled subset (hand seeds per error site, specgen models, one-violation injections, '
+         'text mutants) the driver evaluates `Legal` and the real specs_to_ir must accept exactly when it holds (a refusal '
+         'with the message of an unmodelled rule is not judged); a disagreement is reported as a failing input of this '
+         'property with signature kind `illegal-accepted` / `legal-refused` and the rule. '
+         'PROVED FOR THE COMPONENTS (Lean 4, Props/C01.lean), full strength, about component models of the decision logic that '
          'follow stone/frontend/ir_generator.py and stone/ir/data_types.py branch by branch: (a) type instantiation '
          '(_instantiate_data_type, the Void? test of _resolve_type, the __init__ parameter checks of every primitive and '
          'of List / Map): an argument list is accepted exactly when it is legal by the "Basic Types" table of '
@@ -28,7 +51,7 @@ MANIFEST = dict(
          'name sets). '
          'TESTED, NOT PROVED (the end-to-end statement; a Lean model of the whole 1,800-line IR generator was out of '
          'reach): a by-construction oracle on the real specs_to_ir - every generated legal model under two layouts must '
-         'compile, and each of ~100 rule-violation injectors (DESIGN Appendix A: S1-S10, A1-A34, B1-B26, C1-C13) applied '
+         'compile, and each of ~125 rule-violation injectors (DESIGN Appendix A: S1-S13, A1-A35, B1-B26, C1-C13) applied '
          'at sampled sites of such models (through aliases, imports, patches, deeper inheritance, other files and file '
          'orders) must be refused with InvalidSpec; every rule whose violation can be reached through an alias (A12, A15, '
          'Map key, A21, A22, A23, A27, A28, B2) is injected again behind chains of two and three aliases and behind a '
@@ -41,17 +64,35 @@ MANIFEST = dict(
          'from the Basic Types table: every item, every map key and every map value, at any depth, must be of the right '
          'kind and inside every bound of the type at its position), and again by replacing one part (field value, list '
          'item, map key, map value, whole container) of the examples the generator wrote into whole models by a misfit '
-         '(C3.field / item / key / value / container).',
+         '(C3.field / item / key / value / container). Every `raise InvalidSpec(` / parser / lexer error site of the anchored '
+         'files that a spec can reach is reached in every tier by a fixed catalogue of minimal illegal specs, each beside its '
+         'nearest legal neighbour (fe.sites: a keyword in the place of `alias`, unhashable map keys, files cut short, unmatched '
+         'parentheses, literals of thousands of digits, non-types used as types, untyped struct fields and parameters, two-type '
+         'routes, route attributes of every type kind, `@` references of every wrong kind on every host, redactors on aliases, '
+         'values for void members, literals for struct / union members, missing and circular example references); "well-formed '
+         'doc references" is evaluated (fe.docrefs) on a grid of reference text (every tag; local, imported, not imported, '
+         'non-namespace prefixes; every kind of wrong target) x the docstring that carries it (struct, field, inherited '
+         'context, union, void / typed option, route, patched field, subtype tree, alias, namespace) against an independent '
+         'statement of the reference rules.',
     note='Trusted: Lean kernel, translator, generators and injectors (what they never produce is never checked), CPython re '
-         '(whether a pattern compiles is an external parameter of the model). The iff for whole specs is observed by '
-         'testing only. Not judged: booleans used as numeric arguments, null for an optional argument, min > max for '
+         '(whether a pattern compiles is an external parameter of the model), the REAL parser as the producer of the '
+         'compile model`s input. The iff for whole specs is PROVED for the compile model`s subset (no docs, annotations '
+         'applied to members, examples, patches, route attributes, default values; type references with mixed literal / '
+         'type positional arguments or a type passed by keyword are outside its input) and observed by testing beyond it. '
+         'compile_ok_iff_legal does not say WHICH error kind an illegal input gets (several violations: the order of the '
+         'passes decides; single violations: compared by comp.compile), and the fuel / internal answers of the model are '
+         'proved unreachable on legal input only (on illegal input they would still be a refusal; the suite counts them as '
+         'disagreements, none occurs). Not judged: booleans used as numeric arguments, null for an optional argument, min > max for '
          'numeric bounds, indentation of the first line of a file, which of several errors is reported, Void as a List / '
          'Map element, whether a String pattern must cover the whole example string or only a prefix, a non-string where '
-         'a Timestamp is expected. Several patches of one type are legal (all are applied); only a member added twice is injected. '
+         'a Timestamp is expected, a `:type:` / `:field:` reference through an alias of a struct, the case of a reference tag, '
+         'doc references inside strings that document no API element (annotation types, their parameters, example texts), '
+         'nesting beyond the recursion limit of the interpreter. Several patches of one type are legal (all are applied); only a member added twice is injected. '
          'Catalogue entries without an injector are listed in the evidence (rules_unbuilt). Exceptions other than '
          'InvalidSpec met on the way are counted here and reported by C03.',
-    technique='Lean 4 proof of component models + translator + differential correspondence; by-construction / '
-              'fault-injection testing for the end-to-end statement',
+    technique='Lean 4 proof (accepted = legal for the compile model; component models) + translator + differential '
+              'correspondence (model and rule set against the real compiler); by-construction / fault-injection testing '
+              'for the end-to-end statement beyond the modelled subset',
     design='5 C01')
 
 
@@ -69,23 +110,35 @@ def run_corpus(ck):
 
 
 def run(ck):
-    ck.build_and_audit()
+    ck.build_and_audit(extra_props=['C01Compile'])
     run_corpus(ck)
+    # `Legal` (the order-free rule set of the compile model) against the real compiler's accept / refuse
+    try:
+        fe_compile.suite_compile(ck, legal_report=True)
+    except RuntimeError as e:
+        ck.broken.append({'kind': 'correspondence', 'name': 'comp.legal', 'detail': str(e)[:600]})
     fe_rules.suite_valid(ck)
     fe_rules.suite_violations(ck)
     fe_rules.suite_params(ck, report='C01')
     fe_rules.suite_names(ck, report='C01')
     fe_rules.suite_annargs(ck, report='C01')
     fe_rules.suite_exvalues(ck, report='C01')
+    fe_rules.suite_sites(ck, report='C01')
+    fe_rules.suite_docrefs(ck, report='C01')
     ck.assumptions.extend([
         'identifiers and namespace names are ASCII ([a-zA-Z_][a-zA-Z0-9_-]*; no "/" in a namespace name), so str.lower is Char.toLower',
         'the empty pattern compiles (re.compile("")); whether any other pattern compiles is asked of CPython',
         'argument lists come from the parser: literals, null, or type references (resolved before the outer reference)',
     ])
-    ck.note('end-to-end acceptance/refusal of whole specs is evaluated by testing (generated legal models, injected '
-            'violations); only the component models carry theorems')
+    ck.note('accepted = legal is PROVED for the compile model (type graph) and its rule set is compared with the real '
+            'compiler (comp.legal); for everything the model leaves out (docs, annotations on members, examples, patches, '
+            'route attributes, default values) acceptance / refusal of whole specs is evaluated by testing')
     return ck.finish(rule=fe_rules.RULE)
 
 
 def replay(ck, path):
+    rec = json.load(open(path))
+    case = rec.get('case') or {}
+    if case.get('suite') == 'comp.legal':
+        return fe_compile.replay_legal(ck, case)
     return fe_rules.replay(ck, path)
